@@ -5,7 +5,8 @@ timeout.  Purely functional (counts, no wall-clock bounds): robust on a loaded m
 Every command registers its pid in a directory, counts how many registered pids are alive (itself included) when it
 starts, prints `alive=<k>` and then behaves as its host name says:
   q*   quick: exits at once
-  s*   stubborn: ignores SIGTERM and lives 3 s (a command that survives being given up on)
+  s*   stubborn: ignores SIGTERM and lives 6 s (a command that survives being given up on -- by more than any
+       short grace a transport might grant: it is given up on at ~2 s, so it outlives the SIGTERM by ~4 s)
   z*   closes stdin/stdout/stderr at once and lives 3 s (pdsh sees EOF; the teardown has to wait for it)
 With `-u 1` the s* / z* hosts are overdue.  On a correct pdsh the slot of such a host is released only when its
 command is gone (rcmd_destroy -> waitpid returns), so no later command ever sees more than `fanout` alive.
@@ -24,7 +25,7 @@ for f in "$d"/*.pid; do
 done
 echo "alive=$k"
 case $h in
- s*) trap "" TERM; sleep 3 ;;
+ s*) trap "" TERM; sleep 6 ;;
  z*) exec <&- >&- 2>&-; sleep 3 ;;
  *) : ;;
 esac
@@ -66,7 +67,7 @@ def run_part(ctx, cov, quick):
             p.kill()
             p.communicate()
             # once more, alone, before anything is said about it (loaded machine)
-            time.sleep(4)                   # the commands of the killed run live 3 s at most
+            time.sleep(7)                   # the commands of the killed run live 6 s at most
             for fn in os.listdir(argv[-2]):
                 os.unlink(os.path.join(argv[-2], fn))
             t0 = time.time()
